@@ -73,6 +73,11 @@ def storeAll (vals : CharId → Val) : List Query → CharId → Val
   | [] => vals
   | q :: qs => storeAll (store vals q) qs
 
+/-- the value recorded for the service / accessory callbacks: the normalised value after a
+    successful setter (C10b), else `query.get("value")` -/
+def upValue (fixed nu expired : Bool) (q : Query) : Option Val :=
+  if nu && runs fixed expired q && (charOutcome q).1 == OK then q.valid else qvalue q
+
 /-- the result entry written by the per-query loop -/
 def res0 (fixed expired : Bool) (q : Query) : Res :=
   let o : Int × Option Val := if runs fixed expired q then charOutcome q else (INVALID, none)
@@ -86,19 +91,19 @@ theorem wrapCharSetter_eq (q : Query) (st : CharSt) :
   | none => simp
   | some n => cases hc : q.cb <;> simp
 
-theorem step1_eq (fixed expired : Bool) (s : L1) (q : Query) :
-    step1 fixed expired s q =
+theorem step1_eq (fixed nu expired : Bool) (s : L1) (q : Query) :
+    step1 fixed nu expired s q =
       if answered expired q then
         { st := if runs fixed expired q then ⟨store s.st.vals q, s.st.log ++ (called q).toList⟩ else s.st
           results := s.results ++ [(q.id, res0 fixed expired q)]
-          updates := if fixed && expired then s.updates else s.updates ++ [(q.id, qvalue q)] }
+          updates := if fixed && expired then s.updates else s.updates ++ [(q.id, upValue fixed nu expired q)] }
       else s := by
-  unfold step1 answered res0 runs qvalue
+  unfold step1 answered res0 upValue runs qvalue
   by_cases h1 : q.hasValue <;> by_cases h2 : expired <;> by_cases h3 : fixed <;>
     cases hv : q.value <;> simp [h1, h2, h3, hv, wrapCharSetter_eq]
 
-theorem loop1_results (fixed expired : Bool) (qs : List Query) (s : L1) :
-    (loop1 fixed expired s qs).results =
+theorem loop1_results (fixed nu expired : Bool) (qs : List Query) (s : L1) :
+    (loop1 fixed nu expired s qs).results =
       s.results ++ (qs.filter (answered expired)).map (fun q => (q.id, res0 fixed expired q)) := by
   induction qs generalizing s with
   | nil => simp [loop1]
@@ -106,18 +111,18 @@ theorem loop1_results (fixed expired : Bool) (qs : List Query) (s : L1) :
     simp only [loop1, ih, step1_eq]
     by_cases h : answered expired q <;> simp [h, List.filter_cons]
 
-theorem loop1_updates (fixed expired : Bool) (qs : List Query) (s : L1) :
-    (loop1 fixed expired s qs).updates =
+theorem loop1_updates (fixed nu expired : Bool) (qs : List Query) (s : L1) :
+    (loop1 fixed nu expired s qs).updates =
       s.updates ++ (if fixed && expired then [] else
-        (qs.filter (answered expired)).map (fun q => (q.id, qvalue q))) := by
+        (qs.filter (answered expired)).map (fun q => (q.id, upValue fixed nu expired q))) := by
   induction qs generalizing s with
   | nil => simp [loop1]
   | cons q qs ih =>
     simp only [loop1, ih, step1_eq]
     by_cases h : answered expired q <;> by_cases h2 : (fixed && expired) = true <;> simp [h, h2, List.filter_cons]
 
-theorem loop1_log (fixed expired : Bool) (qs : List Query) (s : L1) :
-    (loop1 fixed expired s qs).st.log =
+theorem loop1_log (fixed nu expired : Bool) (qs : List Query) (s : L1) :
+    (loop1 fixed nu expired s qs).st.log =
       s.st.log ++ ((qs.filter (fun q => answered expired q && runs fixed expired q)).filterMap called) := by
   induction qs generalizing s with
   | nil => simp [loop1]
@@ -127,8 +132,8 @@ theorem loop1_log (fixed expired : Bool) (qs : List Query) (s : L1) :
       simp [h, h2, List.filter_cons]
     cases hc : called q <;> simp [hc, List.filterMap_cons]
 
-theorem loop1_vals (fixed expired : Bool) (qs : List Query) (s : L1) :
-    (loop1 fixed expired s qs).st.vals =
+theorem loop1_vals (fixed nu expired : Bool) (qs : List Query) (s : L1) :
+    (loop1 fixed nu expired s qs).st.vals =
       storeAll s.st.vals (qs.filter (fun q => answered expired q && runs fixed expired q)) := by
   induction qs generalizing s with
   | nil => simp [loop1, storeAll]
@@ -326,15 +331,15 @@ def entryRes (fixed expired : Bool) (T : Topo) (B : Behav) (q : Query) : Res :=
               else ov (override T B q.id) (res0 fixed expired q).status }
 
 /-- the updates collected by the per-query loop -/
-def upsOf (fixed expired : Bool) (qs : List Query) : List Upd :=
-  if fixed && expired then [] else (qs.filter (answered expired)).map (fun q => (q.id, qvalue q))
+def upsOf (fixed nu expired : Bool) (qs : List Query) : List Upd :=
+  if fixed && expired then [] else (qs.filter (answered expired)).map (fun q => (q.id, upValue fixed nu expired q))
 
-theorem setChars_updates (fixed : Bool) (expired : Bool) (vals : CharId → Val) (qs : List Query) :
-    (loop1 fixed expired ⟨⟨vals, []⟩, [], []⟩ qs).updates = upsOf fixed expired qs := by
+theorem setChars_updates (fixed nu : Bool) (expired : Bool) (vals : CharId → Val) (qs : List Query) :
+    (loop1 fixed nu expired ⟨⟨vals, []⟩, [], []⟩ qs).updates = upsOf fixed nu expired qs := by
   simp [loop1_updates, upsOf]
 
-theorem mem_upsOf_keys (fixed expired : Bool) (qs : List Query) (c : CharId) :
-    c ∈ (upsOf fixed expired qs).map (·.1) ↔
+theorem mem_upsOf_keys (fixed nu expired : Bool) (qs : List Query) (c : CharId) :
+    c ∈ (upsOf fixed nu expired qs).map (·.1) ↔
       (fixed && expired) = false ∧ ∃ q ∈ qs, answered expired q = true ∧ q.id = c := by
   unfold upsOf
   by_cases hfe : (fixed && expired) = true
@@ -342,24 +347,24 @@ theorem mem_upsOf_keys (fixed expired : Bool) (qs : List Query) (c : CharId) :
   · simp only [hfe, Bool.false_eq_true, if_false, List.mem_map, List.mem_filter]
     constructor
     · rintro ⟨u, ⟨q, ⟨hq, ha⟩, rfl⟩, rfl⟩; exact ⟨by simpa using hfe, q, hq, ha, rfl⟩
-    · rintro ⟨_, q, hq, ha, rfl⟩; exact ⟨(q.id, qvalue q), ⟨q, ⟨hq, ha⟩, rfl⟩, rfl⟩
+    · rintro ⟨_, q, hq, ha, rfl⟩; exact ⟨(q.id, upValue fixed nu expired q), ⟨q, ⟨hq, ha⟩, rfl⟩, rfl⟩
 
-theorem mem_chars (fixed : Bool) (T : Topo) (B : Behav) (expired : Bool) (vals : CharId → Val)
+theorem mem_chars (fixed nu : Bool) (T : Topo) (B : Behav) (expired : Bool) (vals : CharId → Val)
     (qs : List Query) (x : CharId × Res) :
-    x ∈ (setChars fixed T B expired vals qs).chars ↔
+    x ∈ (setChars fixed nu T B expired vals qs).chars ↔
       ∃ q ∈ qs, answered expired q = true ∧ x = (q.id, entryRes fixed expired T B q) := by
   have key : ∀ q ∈ qs, answered expired q = true →
       (q.id, ({ res0 fixed expired q with
-        status := if q.id ∈ (upsOf fixed expired qs).map (·.1)
+        status := if q.id ∈ (upsOf fixed nu expired qs).map (·.1)
                   then ov (override T B q.id) (res0 fixed expired q).status
                   else (res0 fixed expired q).status } : Res)) = (q.id, entryRes fixed expired T B q) := by
     intro q hq ha
     unfold entryRes
     by_cases hfe : (fixed && expired) = true
-    · have : ¬ q.id ∈ (upsOf fixed expired qs).map (·.1) := by
+    · have : ¬ q.id ∈ (upsOf fixed nu expired qs).map (·.1) := by
         rw [mem_upsOf_keys]; simp [hfe]
       simp only [this, hfe, if_true, if_false]
-    · have : q.id ∈ (upsOf fixed expired qs).map (·.1) := by
+    · have : q.id ∈ (upsOf fixed nu expired qs).map (·.1) := by
         rw [mem_upsOf_keys]; exact ⟨by simpa using hfe, q, hq, ha, rfl⟩
       simp only [this, hfe, Bool.false_eq_true, if_true, if_false]
   unfold setChars
@@ -375,24 +380,24 @@ theorem mem_chars (fixed : Bool) (T : Topo) (B : Behav) (expired : Bool) (vals :
     refine List.mem_map.2 ⟨(q.id, res0 fixed expired q), List.mem_map.2 ⟨q, List.mem_filter.2 ⟨hq, ha⟩, rfl⟩, ?_⟩
     exact key q hq ha
 
-theorem setChars_vals (fixed : Bool) (T : Topo) (B : Behav) (expired : Bool) (vals : CharId → Val)
+theorem setChars_vals (fixed nu : Bool) (T : Topo) (B : Behav) (expired : Bool) (vals : CharId → Val)
     (qs : List Query) :
-    (setChars fixed T B expired vals qs).vals =
+    (setChars fixed nu T B expired vals qs).vals =
       storeAll vals (qs.filter (fun q => answered expired q && runs fixed expired q)) := by
   simp [setChars, loop1_vals]
 
-theorem setChars_log (fixed : Bool) (T : Topo) (B : Behav) (expired : Bool) (vals : CharId → Val)
+theorem setChars_log (fixed nu : Bool) (T : Topo) (B : Behav) (expired : Bool) (vals : CharId → Val)
     (qs : List Query) :
-    (setChars fixed T B expired vals qs).log =
+    (setChars fixed nu T B expired vals qs).log =
       (qs.filter (fun q => answered expired q && runs fixed expired q)).filterMap called ++
-        (accsOf (upsOf fixed expired qs)).flatMap (passEvs T (upsOf fixed expired qs)) := by
+        (accsOf (upsOf fixed nu expired qs)).flatMap (passEvs T (upsOf fixed nu expired qs)) := by
   simp [setChars, pass2_eq, loop1_log, setChars_updates]
 
-theorem setChars_body (fixed : Bool) (T : Topo) (B : Behav) (expired : Bool) (vals : CharId → Val)
+theorem setChars_body (fixed nu : Bool) (T : Topo) (B : Behav) (expired : Bool) (vals : CharId → Val)
     (qs : List Query) :
-    (setChars fixed T B expired vals qs).body =
-      if nonempty (setChars fixed T B expired vals qs).chars
-      then some (setChars fixed T B expired vals qs).chars else none := rfl
+    (setChars fixed nu T B expired vals qs).body =
+      if nonempty (setChars fixed nu T B expired vals qs).chars
+      then some (setChars fixed nu T B expired vals qs).chars else none := rfl
 
 
 /-! ### reading the callback log -/
@@ -660,9 +665,9 @@ theorem cbResult_ok {b : Bool} (h : some (cbResult b) = none ∨ some (cbResult 
   | true => simp [cbResult, FAIL] at h
 
 /-- a refused timed write (repaired code): nothing runs, nothing is collected -/
-theorem expired_facts (T : Topo) (B : Behav) (vals : CharId → Val) (qs : List Query) :
-    (setChars true T B true vals qs).vals = vals ∧ (setChars true T B true vals qs).log = [] ∧
-    ∀ x, x ∈ (setChars true T B true vals qs).chars ↔ ∃ q ∈ qs, x = (q.id, ⟨INVALID, none⟩) := by
+theorem expired_facts (nu : Bool) (T : Topo) (B : Behav) (vals : CharId → Val) (qs : List Query) :
+    (setChars true nu T B true vals qs).vals = vals ∧ (setChars true nu T B true vals qs).log = [] ∧
+    ∀ x, x ∈ (setChars true nu T B true vals qs).chars ↔ ∃ q ∈ qs, x = (q.id, ⟨INVALID, none⟩) := by
   refine ⟨?_, ?_, ?_⟩
   · rw [setChars_vals]
     have : qs.filter (fun q => answered true q && runs true true q) = [] := by
@@ -705,14 +710,14 @@ theorem res0_value_none (fixed expired : Bool) (q : Query) :
 
 /-- everything the request does to / says about one entry, as a function of that entry alone
     (plus the callbacks of its own service and accessory and the expiry decision) -/
-theorem entry_closed_form (T : Topo) (B : Behav) (expired : Bool) (vals : CharId → Val)
+theorem entry_closed_form (nu : Bool) (T : Topo) (B : Behav) (expired : Bool) (vals : CharId → Val)
     (qs : List Query) (hd : Distinct qs) (q : Query) (hq : q ∈ qs) :
-    (∀ r, (q.id, r) ∈ (setChars true T B expired vals qs).chars ↔
+    (∀ r, (q.id, r) ∈ (setChars true nu T B expired vals qs).chars ↔
         (answered expired q = true ∧ r = entryRes true expired T B q)) ∧
-    (setChars true T B expired vals qs).vals q.id =
+    (setChars true nu T B expired vals qs).vals q.id =
         (if (answered expired q && runs true expired q) = true
          then (match q.valid with | some n => n | none => vals q.id) else vals q.id) ∧
-    charCalls (setChars true T B expired vals qs).log q.id =
+    charCalls (setChars true nu T B expired vals qs).log q.id =
         (if (answered expired q && runs true expired q) = true then (calledVal q).toList else []) := by
   refine ⟨?_, ?_, ?_⟩
   · intro r
@@ -752,22 +757,22 @@ theorem entry_closed_form (T : Topo) (B : Behav) (expired : Bool) (vals : CharId
       subst this; exact hf (List.mem_filter.1 hp).2
 
 /-- invocation counts of the service / accessory callbacks of an entry that is carried out -/
-theorem upper_calls (T : Topo) (B : Behav) (vals : CharId → Val) (qs : List Query) (q : Query)
+theorem upper_calls (nu : Bool) (T : Topo) (B : Behav) (vals : CharId → Val) (qs : List Query) (q : Query)
     (hq : q ∈ qs) (ha : q.hasValue = true) :
-    svcCalls (setChars true T B false vals qs).log q.id.aid (T.svc q.id) =
+    svcCalls (setChars true nu T B false vals qs).log q.id.aid (T.svc q.id) =
         (if T.svcCb q.id.aid (T.svc q.id) = true
-         then [svcGroup T (upsOf true false qs) q.id.aid (T.svc q.id)] else []) ∧
-    accCalls (setChars true T B false vals qs).log q.id.aid =
+         then [svcGroup T (upsOf true nu false qs) q.id.aid (T.svc q.id)] else []) ∧
+    accCalls (setChars true nu T B false vals qs).log q.id.aid =
         (if T.accCb q.id.aid = true
-         then [(svcsOf T (upsOf true false qs) q.id.aid).map
-                (fun s => (s, svcGroup T (upsOf true false qs) q.id.aid s))] else []) ∧
-    (q.id, qvalue q) ∈ svcGroup T (upsOf true false qs) q.id.aid (T.svc q.id) ∧
-    T.svc q.id ∈ svcsOf T (upsOf true false qs) q.id.aid := by
-  have hups : (q.id, qvalue q) ∈ upsOf true false qs := by
+         then [(svcsOf T (upsOf true nu false qs) q.id.aid).map
+                (fun s => (s, svcGroup T (upsOf true nu false qs) q.id.aid s))] else []) ∧
+    (q.id, upValue true nu false q) ∈ svcGroup T (upsOf true nu false qs) q.id.aid (T.svc q.id) ∧
+    T.svc q.id ∈ svcsOf T (upsOf true nu false qs) q.id.aid := by
+  have hups : (q.id, upValue true nu false q) ∈ upsOf true nu false qs := by
     simp only [upsOf, Bool.and_false, Bool.false_eq_true, if_false, List.mem_map, List.mem_filter]
     exact ⟨q, ⟨hq, by simp [answered, ha]⟩, rfl⟩
-  have hacc : q.id.aid ∈ accsOf (upsOf true false qs) := (mem_accsOf _ _).2 ⟨_, hups, rfl⟩
-  have hsvc : T.svc q.id ∈ svcsOf T (upsOf true false qs) q.id.aid :=
+  have hacc : q.id.aid ∈ accsOf (upsOf true nu false qs) := (mem_accsOf _ _).2 ⟨_, hups, rfl⟩
+  have hsvc : T.svc q.id ∈ svcsOf T (upsOf true nu false qs) q.id.aid :=
     (mem_svcsOf _ _ _ _).2 ⟨_, hups, rfl, rfl⟩
   refine ⟨?_, ?_, ?_, hsvc⟩
   · rw [setChars_log, svcCalls_append, (upperCalls_loop _ _ _).1, List.nil_append, svcCalls_pass]
@@ -788,14 +793,14 @@ def Touches (c : Conn) (p : Pid) : Op → Prop
 /-- Connection `c` holds a usable prepare for `p` with expiry `e` after the history `hrev`
     (most recent op first): some well-formed `prepare` of `p` by `c` at time `e - ttl`, and since
     then no write of `c` carrying `p`, no loss of `c`, and no newer prepare of `p` by `c`. -/
-def LivePrep (fixed : Bool) (T : Topo) (s0 : State) (hrev : List Op) (c : Conn) (p : Pid) (e : Nat) : Prop :=
+def LivePrep (fixed nu : Bool) (T : Topo) (s0 : State) (hrev : List Op) (c : Conn) (p : Pid) (e : Nat) : Prop :=
   ∃ later earlier ttl, hrev = later ++ Op.prepare c (some ttl) (some p) :: earlier ∧
-    (∀ op ∈ later, ¬ Touches c p op) ∧ e = (runRev fixed T s0 earlier).now + ttl
+    (∀ op ∈ later, ¬ Touches c p op) ∧ e = (runRev fixed nu T s0 earlier).now + ttl
 
-theorem livePrep_cons (fixed : Bool) (T : Topo) (s0 : State) (op : Op) (h : List Op) (c : Conn) (p : Pid) (e : Nat) :
-    LivePrep fixed T s0 (op :: h) c p e ↔
-      (∃ ttl, op = Op.prepare c (some ttl) (some p) ∧ e = (runRev fixed T s0 h).now + ttl) ∨
-      (¬ Touches c p op ∧ LivePrep fixed T s0 h c p e) := by
+theorem livePrep_cons (fixed nu : Bool) (T : Topo) (s0 : State) (op : Op) (h : List Op) (c : Conn) (p : Pid) (e : Nat) :
+    LivePrep fixed nu T s0 (op :: h) c p e ↔
+      (∃ ttl, op = Op.prepare c (some ttl) (some p) ∧ e = (runRev fixed nu T s0 h).now + ttl) ∨
+      (¬ Touches c p op ∧ LivePrep fixed nu T s0 h c p e) := by
   constructor
   · rintro ⟨later, earlier, ttl, heq, hno, he⟩
     cases later with
@@ -818,8 +823,8 @@ theorem livePrep_cons (fixed : Bool) (T : Topo) (s0 : State) (op : Op) (h : List
       · exact hnt
       · exact hno o ho'
 
-theorem step_prep_untouched (fixed : Bool) (T : Topo) (s : State) (op : Op) (c : Conn) (p : Pid)
-    (h : ¬ Touches c p op) : (step fixed T s op).prep c p = s.prep c p := by
+theorem step_prep_untouched (fixed nu : Bool) (T : Topo) (s : State) (op : Op) (c : Conn) (p : Pid)
+    (h : ¬ Touches c p op) : (step fixed nu T s op).prep c p = s.prep c p := by
   cases op with
   | prepare c' ttl pid =>
     cases ttl with
@@ -845,9 +850,9 @@ theorem step_prep_untouched (fixed : Bool) (T : Topo) (s : State) (op : Op) (c :
     have : ¬ c = c' := fun h1 => h h1.symm
     simp [step, lose, this]
 
-theorem step_prep_touched (fixed : Bool) (T : Topo) (s : State) (op : Op) (c : Conn) (p : Pid)
+theorem step_prep_touched (fixed nu : Bool) (T : Topo) (s : State) (op : Op) (c : Conn) (p : Pid)
     (h : Touches c p op) :
-    (step fixed T s op).prep c p =
+    (step fixed nu T s op).prep c p =
       match op with
       | .prepare _ (some ttl) (some _) => some (s.now + ttl)
       | _ => none := by
@@ -867,9 +872,9 @@ theorem step_prep_touched (fixed : Bool) (T : Topo) (s : State) (op : Op) (c : C
     simp [step, lose, h]
 
 /-- the invariant on `prepared_writes`: the table holds exactly the live prepares -/
-theorem prep_iff_live (fixed : Bool) (T : Topo) (s0 : State) (h0 : ∀ c p, s0.prep c p = none)
+theorem prep_iff_live (fixed nu : Bool) (T : Topo) (s0 : State) (h0 : ∀ c p, s0.prep c p = none)
     (hrev : List Op) (c : Conn) (p : Pid) (e : Nat) :
-    (runRev fixed T s0 hrev).prep c p = some e ↔ LivePrep fixed T s0 hrev c p e := by
+    (runRev fixed nu T s0 hrev).prep c p = some e ↔ LivePrep fixed nu T s0 hrev c p e := by
   induction hrev generalizing e with
   | nil =>
     simp only [runRev, h0, LivePrep]
@@ -879,7 +884,7 @@ theorem prep_iff_live (fixed : Bool) (T : Topo) (s0 : State) (h0 : ∀ c p, s0.p
   | cons op h ih =>
     rw [livePrep_cons, runRev]
     by_cases ht : Touches c p op
-    · rw [step_prep_touched _ _ _ _ _ _ ht]
+    · rw [step_prep_touched _ _ _ _ _ _ _ ht]
       cases op with
       | prepare c' ttl pid =>
         simp only [Touches] at ht
@@ -905,7 +910,7 @@ theorem prep_iff_live (fixed : Bool) (T : Topo) (s0 : State) (h0 : ∀ c p, s0.p
         constructor
         · intro h; cases h
         · rintro ⟨ttl, heq, _⟩; cases heq
-    · rw [step_prep_untouched _ _ _ _ _ _ ht, ih]
+    · rw [step_prep_untouched _ _ _ _ _ _ _ ht, ih]
       constructor
       · intro hl; exact Or.inr ⟨ht, hl⟩
       · rintro (⟨ttl, rfl, _⟩ | ⟨_, hl⟩)
